@@ -548,7 +548,95 @@ func checkLine(box orb.Bound, ls orb.LineString, open bool) (orb.MultiLineString
 			return nil, fmt.Errorf("clipping piece %d %v again with the open option gives %v", k, p, again)
 		}
 	}
+	if err := independent(box, ls, open, got); err != nil {
+		return nil, err
+	}
 	return got, nil
+}
+
+// scribble overwrites every vertex of s and everything an append to s could
+// reach (its spare capacity).
+func scribble(s orb.LineString) {
+	s = s[:cap(s)]
+	for i := range s {
+		s[i] = orb.Point{-7.5e77 - float64(i), 7.5e77 + float64(i)}
+	}
+}
+
+func cloneMLS(m orb.MultiLineString) orb.MultiLineString {
+	if m == nil {
+		return nil
+	}
+	out := make(orb.MultiLineString, len(m))
+	for i := range m {
+		out[i] = copyLine(m[i])
+	}
+	return out
+}
+
+// independent: the pieces returned by a call are values of their own. A second
+// call on a fresh copy of the input gives the same pieces; overwriting one piece
+// of the second result (and the spare capacity behind it) changes neither its
+// sibling pieces, nor the first result, nor the input; a third call still
+// gives the same pieces.
+func independent(box orb.Bound, ls orb.LineString, open bool, first orb.MultiLineString) error {
+	snap := cloneMLS(first)
+	in := copyLine(ls)
+	second := doClip(box, in, open)
+	if !sameMLS(second, snap) {
+		return fmt.Errorf("the same call on a fresh copy of the input gives %v, before it gave %v", second, snap)
+	}
+	for k := range second {
+		scribble(second[k])
+		for j := k + 1; j < len(second); j++ {
+			if !sameLine(second[j], snap[j]) {
+				return fmt.Errorf("overwriting returned piece %d changed its sibling piece %d: %v, was %v", k, j, second[j], snap[j])
+			}
+		}
+		if !sameMLS(first, snap) {
+			return fmt.Errorf("overwriting piece %d of a later result changed the earlier result: %v, was %v", k, first, snap)
+		}
+		if !sameLine(in, ls) {
+			return fmt.Errorf("overwriting returned piece %d changed the input line: %v, was %v", k, in, ls)
+		}
+	}
+	if third := doClip(box, copyLine(ls), open); !sameMLS(third, snap) {
+		return fmt.Errorf("after overwriting an earlier result the same call gives %v, before it gave %v", third, snap)
+	}
+	return nil
+}
+
+// outputs collects what every line entry point returns for the case (used by
+// the concurrent test: functions of their arguments only must return the same
+// bits whoever else is calling at the same time). It touches no package state
+// of this check.
+func outputs(c Case) []orb.Geometry {
+	box := c.Box.Bound()
+	lines := c.lines()
+	var out []orb.Geometry
+	in := make(orb.MultiLineString, len(lines))
+	for i, ls := range lines {
+		// the option is always passed explicitly here, so that every caller goes through option handling
+		out = append(out, clip.LineString(box, copyLine(ls), clip.OpenBound(c.Open)))
+		in[i] = copyLine(ls)
+	}
+	out = append(out, clip.MultiLineString(box, in, clip.OpenBound(c.Open)))
+	if len(lines) > 0 {
+		out = append(out, clip.Geometry(box, copyLine(lines[0])), clip.Geometry(box, cloneMLS(in)))
+	}
+	return out
+}
+
+func sameOutputs(a, b []orb.Geometry) error {
+	if len(a) != len(b) {
+		return fmt.Errorf("%d results, sequentially %d", len(a), len(b))
+	}
+	for i := range a {
+		if ok, why := gen.SameBits(a[i], b[i]); !ok || (a[i] == nil) != (b[i] == nil) {
+			return fmt.Errorf("result %d differs from the one computed alone: %s vs %s (%s)", i, gen.Canon(a[i]), gen.Canon(b[i]), why)
+		}
+	}
+	return nil
 }
 
 func sameMLS(a, b orb.MultiLineString) bool {
